@@ -316,6 +316,23 @@ pub fn phase_end(w: &Arc<World>, pi: usize, _handles: &[Option<ObjH>]) {
             );
         }
     }
+    // the same obligations as at the very end, judged while gates may still be closed and streams still open: a stall that the
+    // final stage would paper over (it opens every gate and ends every stream) is caught here. Every candidate is conditional on the
+    // state of what it waits for, so a legitimate wait is not an obligation.
+    // (Only obligations that hold whatever else is still legitimately waiting are judged here: most of the others are not
+    // conditional on everything a mid-run wait can depend on, which is why the final stage exists.)
+    let stalled: Vec<(usize, Option<usize>, usize, usize)> = w.with(|i| {
+        i.callers
+            .iter()
+            .filter_map(|c| match c.stage {
+                Stage::Consuming(s) if i.streams[s].processed.len() > i.streams[s].outputs.len() => Some((s, i.streams[s].pipe_obj, i.streams[s].outputs.len(), i.streams[s].processed.len())),
+                _ => None,
+            })
+            .collect()
+    });
+    for (s, obj, got, done) in stalled {
+        w.note("C12", "consumer-not-woken", obj, None, format!("consumer of pipe s{} is blocked after {} outputs although {} items have been processed and nothing can run any more [quiescence at the end of phase {}, gates that nobody opened still closed]", s, got, done, pi));
+    }
     finish_if_violated(w);
 }
 
